@@ -54,9 +54,19 @@ def parse_csv(text):
     return comments, rows
 
 
+def _name_of(tree_dict, level, label, key):
+    """readable name straight from the taxonomy's name table (the oracle
+    does not go through TaxonomyTree.label_to_name)"""
+    try:
+        return tree_dict['name_mapper'][level][label][key]
+    except (KeyError, TypeError):
+        return label
+
+
 def check_outputs_agree(ctx, cfg, res, stored_tree):
     """C15: JSON, CSV and HDF5 tell the same story"""
     js = res['json']
+    stored_dict = json.loads(stored_tree.to_str())
     ok = js is not None and 'results' in js
     ctx.check(ok, 'a successful run writes its records to the JSON output')
     if not ok:
@@ -69,6 +79,21 @@ def check_outputs_agree(ctx, cfg, res, stored_tree):
               and tree.hierarchy == stored_tree.hierarchy,
               'embedded taxonomy reconstructs the stored taxonomy without '
               'its cell lists')
+    # --- embedded marker table: a parent of the run's taxonomy with
+    # fewer than two children uses (and reports) no markers
+    mg = js.get('marker_genes') or {}
+    run_tree = stored_tree
+    if cfg.get('drop_level') in stored_tree.hierarchy:
+        run_tree = run_tree.drop_level(cfg['drop_level'])
+    if cfg.get('flatten'):
+        run_tree = run_tree.flatten()
+    for parent in run_tree.all_parents:
+        if parent is None:
+            continue
+        if len(run_tree.children(parent[0], parent[1])) < 2:
+            k = f'{parent[0]}/{parent[1]}'
+            ctx.check(mg.get(k, []) == [], 'a parent with a single child '
+                      'reports no marker genes')
     iters = cfg['type_assignment']['bootstrap_iteration']
     # --- CSV
     if cfg['csv_result_path'] is not None:
@@ -98,11 +123,11 @@ def check_outputs_agree(ctx, cfg, res, stored_tree):
                     ctx.check(r.get(f'{lv}_label') == a,
                               'label column == JSON assignment')
                     ctx.check(r.get(f'{lv}_name') == str(
-                        stored_tree.label_to_name(lv0, a, 'name')),
+                        _name_of(stored_dict, lv0, a, 'name')),
                         'name column == assignment through the name table')
                     if lv0 == stored_tree.leaf_level:
                         ctx.check(r.get(f'{lv}_alias') == str(
-                            stored_tree.label_to_name(lv0, a, 'alias')),
+                            _name_of(stored_dict, lv0, a, 'alias')),
                             'alias column == assignment through the alias '
                             'table')
                     v = r.get(f'{lv}_{clabel}')
@@ -243,6 +268,7 @@ def _stable(lk, needles):
     out = []
     for x in lk[:2]:
         x = re.sub(re.escape(needles[0]) + r'/run\d+\w*', '<host dir>', x)
+        x = re.sub(r'\d+\.\d+e[+-]\d+', '<t>', x)
         out.append(x.replace(needles[0], '<host dir>')[:160])
     return out
 
